@@ -230,6 +230,18 @@ impl Domain for ClusterDomain {
                 self.dists[u(1)].as_ref().expect("dist").membership_change(change);
                 "ok".into()
             },
+            "dist-burst" => {
+                // dist-burst <i> <n>: n Consistency::None writes (another keyspace) are handed to node i's distributor at once,
+                // i.e. they all sit in its queue when the next membership change arrives
+                let (i, n) = (u(1), p_u64(t[2]));
+                let node = &self.nodes[i];
+                let ts = rt.block_on(node.clock.get_time());
+                let d = self.dists[i].as_ref().expect("dist");
+                for k in 0..n {
+                    d.put("burst", Document::new(1_000_000 + k, ts, vec![0u8]));
+                }
+                "ok".into()
+            },
             "dist-put" => {
                 // dist-put <i> <doc id> <data>: a Consistency::None write of node i handed to its distributor; after the next
                 // batching tick, which nodes hold it?
